@@ -44,6 +44,10 @@ struct Case {
     /// 2 = ["", ALPN], 3 = [ALPN, ""]
     #[serde(default)]
     additional: u8,
+    /// the acceptor takes the connection through `Incoming::accept().into_0rtt()` and
+    /// `handshake_completed()` instead of awaiting the incoming connection
+    #[serde(default)]
+    accept_0rtt: bool,
 }
 
 fn hook() -> impl Strategy<Value = HookSpec> {
@@ -58,8 +62,9 @@ fn strategy() -> impl Strategy<Value = Case> {
         prop::bool::weighted(0.12),
         prop::bool::weighted(0.12),
         prop_oneof![3 => Just(0u8), 1 => 1u8..4],
+        prop::bool::weighted(0.3),
     )
-        .prop_map(|(a_hooks, b_hooks, empty_alpn, self_dial, additional)| Case { a_hooks, b_hooks, empty_alpn, self_dial, additional })
+        .prop_map(|(a_hooks, b_hooks, empty_alpn, self_dial, additional, accept_0rtt)| Case { a_hooks, b_hooks, empty_alpn, self_dial, additional, accept_0rtt })
 }
 
 fn code_of(side: u8, idx: usize, tag: u8) -> u32 {
@@ -174,13 +179,22 @@ async fn run_async(c: &Case) -> Outcome {
     let accept_task = tokio::spawn({
         let b = b.clone();
         let incomings = incomings.clone();
+        let zero_rtt = c.accept_0rtt;
         async move {
             while let Some(inc) = b.accept().await {
                 *incomings.lock().unwrap() += 1;
                 let tx = tx.clone();
                 tokio::spawn(async move {
-                    let view = match inc.await {
-                        Err(e) => view_of_connecting_err(&e),
+                    let accepted: Result<_, View> = if zero_rtt {
+                        match inc.accept() {
+                            Err(e) => Err(view_of_conn_err(&e)),
+                            Ok(acc) => acc.into_0rtt().handshake_completed().await.map_err(|e| view_of_connecting_err(&e)),
+                        }
+                    } else {
+                        inc.await.map_err(|e| view_of_connecting_err(&e))
+                    };
+                    let view = match accepted {
+                        Err(v) => v,
                         Ok(conn) => {
                             let echoed = async {
                                 let (mut s, mut r) = conn.accept_bi().await.ok()?;
